@@ -10,6 +10,7 @@ import (
 	"net/netip"
 	"sort"
 	"testing"
+	"testing/synctest"
 	"time"
 
 	"github.com/mdlayher/corerad/internal/config"
@@ -286,6 +287,7 @@ func runAdvertiser(t *testing.T, sc advScenario, hook func(w *simWorld, a *Adver
 			w.mu.Unlock()
 		}
 		run := w.start(a)
+		synctest.Wait() // let the task dial and start reading before the first event
 		cur := func() *simConn {
 			w.mu.Lock()
 			defer w.mu.Unlock()
